@@ -9,10 +9,12 @@ fn run_case(case: &Value) -> Value {
     let main = case["main"].as_str().unwrap();
     let flat = case["flat"].as_str().unwrap_or("");
     let mut out = json!({"id": case["id"]});
-    let loaded = match guarded(|| a2lfile::load(main, None, true)) {
+    let strict = !case["lenient"].as_bool().unwrap_or(false);
+    let loaded = match guarded(|| a2lfile::load(main, None, strict)) {
         Ok(Ok((a, log))) => {
             out["load"] = json!("ok");
             out["log"] = json!(log.len());
+            out["log_texts"] = Value::Array(log.iter().map(|e| json!(e.to_string())).collect());
             a
         }
         Ok(Err(e)) => {
